@@ -68,7 +68,7 @@ def s5_whole_batch(ctx):
 
 def check(ctx):
     from ..lib import discarded_results
-    ctx.sub(discarded_results, 'C04.S5', ('qstrader/broker/',), 'the batch executed is the one the code sorted (no ordering step whose result is thrown away)')
+    ctx.sub(discarded_results, 'C04.S5', ('qstrader/broker/', 'qstrader/exchange/'), 'the batch executed is the one the code sorted (no ordering step whose result is thrown away)')
     ctx.sub(s1_submit)
     ctx.sub(s5_whole_batch)
     upd = s2_s3_update(ctx)
